@@ -89,6 +89,43 @@ pub fn on_value<T: Ty>(out: &mut Out, v: &T, rng: &mut R, mutations: usize) {
     }
 }
 
+/// Systematic neighbourhood of one valid encoding, direct checks only (no K lines: too many): every proper prefix
+/// must be refused (a decoder that tolerates a short read would accept some), and every value of every byte at the
+/// first 12 positions (version, the witness-flag byte of a transaction, the first counts / prefixes) plus 4 random
+/// positions must either be refused or decode to a value that re-encodes to exactly the bytes consumed.
+pub fn sweep<T: Ty>(out: &mut Out, v: &T, rng: &mut R) {
+    let b = serialize(v);
+    if b.len() > 4096 {
+        return;
+    }
+    out.count(&format!("sweep.{}", T::NAME));
+    let step = if b.len() > 400 { b.len() / 200 } else { 1 };
+    let mut n = 0;
+    while n < b.len() {
+        let r = std::panic::catch_unwind(|| deserialize::<T>(&b[..n]));
+        out.s("no_panic_on_decode", r.is_ok(), || format!("{} prefix {} of {}", T::NAME, n, hex(&b)));
+        if let Ok(r) = r {
+            out.s("proper_prefix_refused", r.is_err(), || format!("{} accepted the first {} bytes of its {}-byte encoding {}", T::NAME, n, b.len(), hex(&b)));
+        }
+        n += step;
+    }
+    let mut positions: Vec<usize> = (0..b.len().min(12)).collect();
+    for _ in 0..4 { if !b.is_empty() { positions.push(rng.gen_range(0..b.len())); } }
+    for i in positions {
+        for x in 0u16..256 {
+            if b[i] == x as u8 { continue; }
+            let mut m = b.clone();
+            m[i] = x as u8;
+            let r = std::panic::catch_unwind(|| elements::encode::deserialize_partial::<T>(&m));
+            out.s("no_panic_on_decode", r.is_ok(), || format!("{} byte {} := {:02x} in {}", T::NAME, i, x, hex(&b)));
+            if let Ok(Ok((val, used))) = r {
+                let re = serialize(&val);
+                out.s("accepted_bytes_reencode_identically", used <= m.len() && re[..] == m[..used], || format!("{} byte {} := {:02x} in {} : consumed={} reenc={}", T::NAME, i, x, hex(&b), used, hex(&re)));
+            }
+        }
+    }
+}
+
 /// hex literals that appear in the repository's own tests and data files
 pub fn harvest_hex() -> Vec<Vec<u8>> {
     let mut res = vec![];
@@ -314,6 +351,28 @@ pub fn run(rng: &mut R, out: &mut Out) {
     }
     for _ in 0..15 * scale {
         on_value(out, &gen::block(rng), rng, 3);
+    }
+    // systematic neighbourhoods (prefixes, every byte value at the structural positions)
+    for i in 0..6 * scale {
+        let mut t = gen::tx(rng);
+        if i % 2 == 0 && !t.has_witness() {
+            // make sure witness-carrying transactions are among them (flag byte 01)
+            if t.input.is_empty() { t.input.push(gen::txin(rng, gen::InKind::Plain, true)); }
+            t.input[0].witness.script_witness = vec![vec![1, 2, 3]];
+        }
+        sweep(out, &t, rng);
+        let k = gen::in_kind(rng);
+        sweep(out, &gen::txin(rng, k, false), rng);
+        sweep(out, &gen::txout(rng, false), rng);
+        sweep(out, &gen::txin_witness(rng, true, true), rng);
+        sweep(out, &gen::txout_witness(rng), rng);
+        sweep(out, &gen::asset(rng), rng);
+        sweep(out, &gen::value(rng), rng);
+        sweep(out, &gen::nonce(rng), rng);
+        sweep(out, &gen::issuance(rng, i % 2 == 1), rng);
+        sweep(out, &gen::params(rng), rng);
+        sweep(out, &gen::header(rng), rng);
+        sweep(out, &gen::block(rng), rng);
     }
     // constructors
     // lock-time constructors around LOCK_TIME_THRESHOLD: heights are exactly the values below it, times exactly
